@@ -265,7 +265,9 @@ def run(ctx: Any, prog: Program) -> None:
     early = [r for st in si_.body[:arm_idx] for r in ast.walk(st) if isinstance(r, ast.Return)]
     ctx.check('C07.I3', not early, vm, early[0] if early else si_, 'Entity.__setitem__ returns before the by_class / by_target maintenance' + (f' (when `{U(vm.parents[early[0]].test)[:60]}`)' if early and isinstance(vm.parents.get(early[0]), ast.If) else '')
               + ': an assignment that leaves the value unchanged must still (re-)register the entity - VMF.parse and add_ent-after-construction rely on it', func='Entity.__setitem__', text='__setitem__: index arms reached on every call')
-    for name in ('__setitem__', '__delitem__'):
+    # (every method of Entity that files the entity itself: __setitem__ and __delitem__ today - a convenience method that "claims" a name
+    # directly puts entities that are not in the map into the index)
+    for name in sorted(ent_methods):
         fn = ent_methods[name]
         for n in walk_no_nested(fn):
             if isinstance(n, ast.Call) and isinstance(n.func, ast.Attribute) and n.func.attr == 'add' \
@@ -620,6 +622,7 @@ def run(ctx: Any, prog: Program) -> None:
 
 
 MUTANTS = [
+    {'id': 'make_unique_claims_the_name', 'file': 'vmf.py', 'find': "            # The base name is free!\n            self['targetname'] = base_name\n", 'replace': "            # The base name is free!\n            self['targetname'] = base_name\n            self.map.by_target[base_name.casefold() or None].add(self)\n", 'expect': 'C07.I3'},
     {'id': 'add_ent_folds_with_lower', 'file': 'vmf.py', 'find': "        self.by_class[item['classname', ''].casefold()].add(item)\n        self.by_target[item['targetname', ''].casefold() or None].add(item)", 'replace': "        self.by_class[item['classname', ''].lower()].add(item)\n        self.by_target[item['targetname', ''].lower() or None].add(item)", 'expect': 'C07.I1'},
     {'id': 'search_wildcard_walks_live_index', 'file': 'vmf.py', 'find': "            for ent_name, ents in list(self.by_target.items()):\n                if ent_name is not None and ent_name.casefold().startswith(name):", 'replace': "            for ent_name, ents in self.by_target.items():\n                if ent_name is not None and ent_name.casefold().startswith(name):", 'expect': 'C07.I5'},
     {'id': 'move_helper_adds_to_stale_set', 'file': 'vmf.py', 'find': "class StrataInstanceVisibility(Enum):", 'replace': "def _move_copyset(mapping, old_key, new_key, ent):\n    old_set = mapping.get(old_key, None)\n    new_set = mapping[new_key]\n    if old_set is not None:\n        old_set.discard(ent)\n        if not old_set:\n            del mapping[old_key]\n    new_set.add(ent)\n\n\nclass StrataInstanceVisibility(Enum):", 'extra': [{'file': 'vmf.py', 'find': "            _remove_copyset(self.map.by_target, (orig_val or '').casefold() or None, self)\n            if self in self.map.entities or self is self.map.spawn:\n                self.map.by_target[str_val.casefold() or None].add(self)\n", 'replace': "            old_name = (orig_val or '').casefold() or None\n            if self in self.map.entities or self is self.map.spawn:\n                _move_copyset(self.map.by_target, old_name, str_val.casefold() or None, self)\n            else:\n                _remove_copyset(self.map.by_target, old_name, self)\n"}], 'expect': 'C07.I3'},
